@@ -51,14 +51,23 @@ def match_known(known, *, obligation=None, case=None, failure=None):
     return None
 
 
+def load_baseline(prop):
+    """specs/baseline/<prop>.json: per function the hash of the source text (incl. inlined callees) on which
+    every obligation was discharged, and the names of those obligations (tools/mkbaseline.py)."""
+    p = os.path.join(ROOT, "specs", "baseline", prop + ".json")
+    if os.path.exists(p):
+        return json.load(open(p))
+    return dict(functions={}, discharged=[])
+
+
 def write_replay(prop, payload):
-    d = os.path.join(ROOT, "replays")
+    d = os.path.join(os.environ.get("VERIF_OUT", ROOT), "replays")
     os.makedirs(d, exist_ok=True)
     h = hashlib.sha256(json.dumps(payload, sort_keys=True, default=str).encode()).hexdigest()[:12]
     path = os.path.join(d, "%s-%s.json" % (prop, h))
     with open(path, "w") as f:
         json.dump(payload, f, indent=1, default=str)
-    return os.path.relpath(path, ROOT)
+    return os.path.relpath(path, os.environ.get("VERIF_OUT", ROOT))
 
 
 def main(argv=None):
@@ -86,6 +95,8 @@ def main(argv=None):
         print("CHECKER-ERROR property=%s %s" % (prop, "exception in the checker"))
         return 3
 
+    baseline = load_baseline(prop)
+    pending_nofail = []
     # ---------------------------------------------------------------- deductive verdicts
     if ded is not None:
         if ded.get("vacuous"):
@@ -147,6 +158,17 @@ def main(argv=None):
                             path = write_replay(prop, rep)
                             violations.append("VIOLATION property=%s replay=%s obligation=%s" % (prop, path, o["name"]))
                             continue
+                if o["kind"] != "lemma" and o.get("carry", True) and o.get("eff_sha") is not None \
+                        and baseline["functions"].get(o["function"]) not in (None, o["eff_sha"]):
+                    # the function's text differs from the text on which all its obligations were discharged, and
+                    # this obligation no longer goes through: a failed obligation of changed code (DESIGN §3)
+                    rep = dict(property=prop, kind="obligation", obligation=o["name"], function=o.get("function"),
+                               source_sha=o.get("source_sha"), baseline_sha=baseline["functions"].get(o["function"]),
+                               solver_output="%s (%s) after %.1fs in every back end; discharged on the baseline source"
+                                             % (o["verdict"], o.get("detail") or "no model", o.get("time") or 0),
+                               replayed=False, tier=tier)
+                    pending_nofail.append((o, rep))
+                    continue
                 undecided.append("UNDECIDED property=%s obligation=%s reason=%s" % (prop, o["name"], o.get("detail") or "unknown"))
         for f in ded["functions"]:
             if f.get("error"):
@@ -167,6 +189,17 @@ def main(argv=None):
         if bnd.get("error"):
             print("CHECKER-ERROR property=%s bounded harness: %s" % (prop, bnd["error"]))
             return 3
+
+    # failed obligations of changed code for which the solver gave no model: the bounded stand-in's failing
+    # input (if any) is the replayed witness; otherwise the violation is reported without one
+    if pending_nofail:
+        bounded_viol = [v for v in violations if "(bounded stand-in)" in v]
+        for o, rep in pending_nofail[:6]:
+            if bounded_viol:
+                rep["witness"] = "see the bounded stand-in's replay file(s): " + "; ".join(bounded_viol[:2])
+            path = write_replay(prop, rep)
+            violations.append("VIOLATION property=%s replay=%s obligation=%s%s" % (
+                prop, path, o["name"], "" if bounded_viol else " no-failing-input-found"))
 
     # ---------------------------------------------------------------- report
     from checks import evidence
